@@ -63,6 +63,10 @@ def z_matrix(case, values=None, imag=None):
         v = vals[k] / float(case["den"]) if case["den"] else float(vals[k])
         if cx:
             v = complex(v, im[k] / 4.0)
+            # purely reactive elements (ideal capacitor / inductor): no
+            # real part at all
+            if k in (case.get("reactive") or ()) and im[k] != 0:
+                v = complex(0.0, im[k] / 4.0)
         Z[i, j] = Z[j, i] = v
     return Z
 
@@ -618,6 +622,8 @@ def complex_cases(draw):
         case["kind"] = "dyadic"
         case["r"] = draw(resist(m, "dyadic"))
     case["x"] = draw(st.lists(st.integers(-64, 64), min_size=m, max_size=m))
+    case["reactive"] = sorted(set(draw(st.lists(st.integers(0, m - 1),
+                                               max_size=3)))) if m else []
     ups = []
     for _ in range(draw(st.integers(0, 2))):
         ups.append({"r": draw(resist(m, "dyadic")),
